@@ -587,6 +587,7 @@ class C15(CheckBase):
         if needs_counts and not case.get("_dry"):
             self._counts = self._dry_counts(case)
         world = World(log, plan={}, block=case.get("block", 4096), tag="c15")
+        world.pyc_steps = True
         world.activate()
         try:
             return self._run(case, world, log)
@@ -742,6 +743,9 @@ class C15(CheckBase):
         sched_sigs = []
 
         for phno, ph in enumerate(case["phases"]):
+            # (the processes of one concurrent phase are siblings forked
+            # from one parent; a later phase is a restart)
+            world.pyc_group = phno
             spec = ph.get("sched", {"kind": "fifo"})
             if spec.get("kind") == "pctacc" and "fracs" in spec:
                 # the kind of call first (a lone rename as likely as one of
